@@ -20,14 +20,15 @@ from common import CACHE, LOGS, REPLAYS, REPO, VERIF, load_known_findings, offli
 
 SYMEX = os.path.join(VERIF, "symex")
 SCRATCH_ROOT = os.path.join(tempfile.gettempdir(), "oh-verif-sym")
+MAX_REPLAYS = 4  # native replays per run; further counterexamples are counted, not replayed
 
 SUITES = {
     # property -> list of (suite of the harness binary, label filter). A suite may serve several
     # properties; a violation belongs to the property whose filter matches its kind / label prefix.
-    "C01": [("c01", ("check", "day schedule:"))],
-    "C02": [("c02", ("check", "stream:"))],
+    "C01": [("c01", ("check", "day schedule:")), ("c01d", ("check", "dated range:"))],
+    "C02": [("c02", ("check", "stream:")), ("c02d", ("check", "hint:")), ("c02e", ("check", "expression hint:"))],
     "C03": [("c03", ("check", ""))],
-    "C04": [("c14", ("panic", "")), ("c01", ("panic", "")), ("c03", ("panic", "")), ("c02", ("panic", "")), ("c08", ("panic", "")), ("c16", ("panic", "")), ("c07", ("panic", "")), ("c09", ("panic", ""))],
+    "C04": [("c14", ("panic", "")), ("c01", ("panic", "")), ("c03", ("panic", "")), ("c02", ("panic", "")), ("c08", ("panic", "")), ("c16", ("panic", "")), ("c07", ("panic", "")), ("c09", ("panic", "")), ("c01d", ("panic", "")), ("c02d", ("panic", "")), ("c02e", ("panic", ""))],
     "C07": [("c07", ("check", "meaning:"))],
     "C08": [("c08", ("check", "bounds:"))],
     "C13": [("c07", ("check", "normalize:"))],
@@ -324,6 +325,7 @@ def run_property(prop, tier, out, jobs=16):
         return
     known = [e for e in load_known_findings(prop) if e.get("status") == "known" and e.get("engine") == "S"]
     natives = None
+    replays_done = 0
     max_paths = 60_000 if tier == "quick" else 400_000
     timeout = 900 if tier == "quick" else 4 * 3600
     try:
@@ -415,6 +417,11 @@ def run_property(prop, tier, out, jobs=16):
                     else:
                         unlisted.append(v)
                 for v in unlisted[:2]:
+                    if replays_done >= MAX_REPLAYS:
+                        out.coverage["counterexamples_not_replayed"] = out.coverage.get("counterexamples_not_replayed", 0) + 1
+                        bad = True
+                        continue
+                    replays_done += 1
                     if natives is None:
                         natives, nerr = build_native(os.path.join(LOGS, f"{prop}.sym.native.build.log"))
                         if nerr:
